@@ -82,6 +82,18 @@ GOK(e) ==
             P(e.out) = Expected(c, e)
        [] e.op = "eq" -> e.out = (P(e.ins[1]) = P(e.ins[2]))
        [] e.op = "is_identity" -> e.out = IsId(c, P(e.ins[1]))
+       \* cofactor curves: multiplication by the cofactor, the order predicates, and the decoders' promises
+       [] e.op \in {"mul_by_cofactor", "clear_cofactor"} -> P(e.out) = PMul(c, OfInt(c.h), P(e.ins[1]))
+       [] e.op = "torsion_flags" ->
+            LET A == P(e.ins[1])  tf == PMul(c, c.r, A) = Id(c) IN
+            /\ e.out.small_order = (PMul(c, OfInt(c.h), A) = Id(c))
+            /\ e.out.torsion_free = tf
+            /\ e.out.prime_order = (tf /\ A # Id(c))
+            /\ e.out.into_subgroup = tf
+       [] e.op = "decode_outside" ->
+            LET A == P(e.ins[1]) IN
+            /\ P(e.out.extended) = A /\ P(e.out.affine) = A
+            /\ e.out.subgroup_accepts = InSubgroup(c, A)
        \* Jacobian coordinates (X, Y, Z) name the affine point (X / Z^2, Y / Z^3); Z = 0 names the identity
        [] e.op = "jacobian" ->
             LET A == P(e.ins[1])  Z2 == MulM(e.out.Z, e.out.Z, c.p) IN
